@@ -12,6 +12,7 @@ import (
 	"runtime"
 	"strconv"
 	"strings"
+	"time"
 
 	"github.com/ontio/ontology-crypto/keypair"
 	"github.com/ontio/ontology/common"
@@ -909,6 +910,7 @@ func main() {
 		Exec:    exec,
 		Corpus:  corpus(),
 		Isolate: true,
+		Timeout: 5 * time.Second, // a case takes well under a millisecond; a decoder that loops on a hostile count is an observation
 		N:       map[string]int{"quick": 12000, "thorough": 400000},
 	})
 }
